@@ -694,8 +694,53 @@ def run(ctx):
         for _ in range(40 if quick else 200):
             k = rng.randrange(2, 5)
             multi.append([[rng.randrange(0, max(1, n + 4)), rng.randrange(1, 256)] for _ in range(k)])
+        if kinds == ["fletcher32"] and n > 0:
+            # the stored trailer replaced by TRANSFORMS of the right checksum (bytes of each 16-bit sum swapped, the two sums
+            # exchanged, all four bytes reversed, +-1, complement): "verify" is exact equality in the model; an implementation that
+            # accepts an equivalent spelling of the checksum lets crafted single-byte alterations through (seeded change C08-e)
+            t = struct.pack("<I", py_fletcher32(x))
+            for t2 in (bytes([t[1], t[0], t[3], t[2]]), t[2:] + t[:2], t[::-1], bytes([t[3], t[2], t[1], t[0]]),
+                       struct.pack("<I", (py_fletcher32(x) + 1) & 0xFFFFFFFF), struct.pack("<I", (py_fletcher32(x) - 1) & 0xFFFFFFFF),
+                       bytes(b ^ 0xFF for b in t), bytes([t[1], t[0], t[2], t[3]]), bytes([t[0], t[1], t[3], t[2]])):
+                m = [[n + j, t[j] ^ t2[j]] for j in range(4) if t[j] != t2[j]]
+                if m:
+                    multi.append(m)
         cor_cases.append({"data": x.hex(), "filters": fs, "xors": [1, 0x80, 0xFF], "sets": [0, 255], "multi": multi})
         cor_meta.append((x, fs))
+    # crafted chunks: 8-byte payloads whose two sums have low byte = high byte + 1 (sum1) and low - high = distance (sum2), so that ONE
+    # byte going 0x00 -> 0xff turns both sums into their byte-swapped spelling: only an exact comparison of the checksum detects it
+    for wpos in range(4):
+        for _ in range(3):
+            h1 = rng.randrange(1, 250); h2 = rng.randrange(1, 240)
+            k = 4 - wpos                                   # weight of word wpos in the second sum (4 words)
+            want1 = (h1 << 8) | (h1 + 1)                   # sum1 before the alteration
+            want2 = (h2 << 8) | ((h2 + k) & 0xFF) if h2 + k < 256 else None
+            if want2 is None:
+                continue
+            # words w0..w3 with w[wpos] having low byte 0; solve w_a, w_b (two other positions) for the two sums mod 65535
+            words = [0, 0, 0, 0]
+            words[wpos] = rng.randrange(1, 200) << 8
+            others = [i for i in range(4) if i != wpos]
+            a, b, c = others
+            words[c] = rng.randrange(0, 65535)
+            ka, kb = 4 - a, 4 - b
+            r1 = (want1 - sum(words)) % 65535
+            r2 = (want2 - sum((4 - i) * words[i] for i in range(4))) % 65535
+            # wa + wb = r1 ; ka*wa + kb*wb = r2  (mod 65535)  ->  (ka-kb)*wa = r2 - kb*r1
+            d = (ka - kb) % 65535
+            try:
+                wa = ((r2 - kb * r1) * pow(d, -1, 65535)) % 65535
+            except ValueError:
+                continue
+            wb = (r1 - wa) % 65535
+            words[a], words[b] = wa, wb
+            x = b"".join(struct.pack(">H", w) for w in words)
+            f = py_fletcher32(x)
+            if (f & 0xFFFF) != want1 or (f >> 16) != want2:
+                continue
+            fs = inst(rng, ["fletcher32"], esz=1)
+            cor_cases.append({"data": x.hex(), "filters": fs, "xors": [0xFF, 1], "sets": [0, 255], "multi": []})
+            cor_meta.append((x, fs))
     cor_res = vlib.run_harness_parallel(H, "c08corrupt", cor_cases, workers=8)
     corruptions = 0
     outer_total = inner_total = multi_collisions = 0
@@ -967,4 +1012,6 @@ def run(ctx):
         model_evaluations_in_coq=ncoq, coq_seconds=round(t_coq, 1), programs=len(cases) + len(e2e_cases), disagreements_checked=ncoq,
         wall_parts=dict(total=round(time.time() - t_start, 1)),
     )
+    # the property speaks of a SINGLE altered byte: such a witness, when there is one, is the replay
+    viol.sort(key=lambda v: 0 if "(1 byte(s) changed)" in v.get("what", "") else 1)
     return dict(violations=viol, known=known, coverage=cov)
